@@ -94,4 +94,26 @@ func init() {
 			return jobs
 		},
 	})
+	register(&PropSpec{
+		ID: "C01", Level: "exploration",
+		Rule:        "generated single-client histories (set with rev 0 / larger / equal / smaller, delete, incr in all its classes, get, multi-get with duplicates and misses, meta-get) over 4..24 keys (lengths 1,2,249,250, bytes >= 0x80, shared prefixes, invalid keys) with values around the 256/512-byte, 4K, 10K and 64K boundaries in 10 content classes, with forced/non-forced flush, hint dump and data-file rotation interleaved; every reply and a get + meta-get after every write, and a sweep of all keys every 25 ops, are compared with the reference map; one child per store configuration from the grid (bucket count x tree height x check_vhash x data-file limit x split capacity x index interval x C-allocation threshold). distinct = (check point x residence {buffer, buffer-rotated, file-head, file-rotated} x compressed/plain x value size class x last maintenance) tuples observed",
+		Assumptions: []string{"ref.RefMap states the documented version arithmetic", "incr versions, tombstones after a rebuild and tree-only version moves under check_vhash are adopted from the observation (open dimensions of the property)", "histories are driven through gobeansdb.StorageClient in-process, not through a TCP socket (the text protocol is covered by C11)"},
+		Plan: func(tier string, seed uint64) []Job {
+			var jobs []Job
+			hist, ops := 18, 140
+			if tier == "thorough" {
+				hist, ops = 60, 300
+			}
+			for _, c := range configsFor(tier, seed, 12, 96) {
+				jobs = append(jobs, Job{Variant: "plain", Mode: "db.c01", Args: js(map[string]interface{}{"Cfg": c, "Histories": hist, "NOps": ops, "MaxVal": 70000, "BigPct": 30, "MaintPct": 12, "InvalidKeyPct": 3, "FullCheckEvery": 25})})
+			}
+			if tier == "thorough" {
+				for i, c := range configsFor(tier, seed+99, 8, 8) {
+					_ = i
+					jobs = append(jobs, Job{Variant: "asan", Mode: "db.c01", Args: js(map[string]interface{}{"Cfg": c, "Histories": 10, "NOps": 200, "MaxVal": 4 << 20, "BigPct": 50, "MaintPct": 12, "FullCheckEvery": 50})})
+				}
+			}
+			return jobs
+		},
+	})
 }
